@@ -36,6 +36,9 @@ PRE = {
              ("cat", "length", {"quantity_type": "length"}), ("cat", "depth", {"quantity_type": "length", "valid_units": ["m", "cm"], "min_value": 0.0, "default_value": 5.0})],
     "unit_first": [("unit", "length", "centimeters", "cm", 100), ("base", "length", "meters", "m")],
     "overridden": [("base", "length", "meters", "m"), ("base", "time", "seconds", "s"), ("cat", "c1", {"quantity_type": "length"}), ("cat", "c1", {"quantity_type": "time", "override": True})],
+    # a category NAMED like one quantity type but registered for another one
+    "crossnamed": [("base", "length", "meters", "m"), ("unit", "length", "centimeters", "cm", 100), ("base", "time", "seconds", "s"), ("unit", "time", "minutes", "min", 0.5),
+                   ("cat", "time", {"quantity_type": "length", "valid_units": ["m", "cm"]}), ("cat", "depth", {"quantity_type": "length"})],
     "posc": "posc",
 }
 STEPS = [
@@ -64,6 +67,7 @@ STEPS = [
     ("cat", "c1", {"quantity_type": "depth", "default_unit": "m"}), ("cat", "c1", {"quantity_type": "depth"}),
     ("cat", "length", {"quantity_type": "length", "override": True, "min_value": "lo", "default_value": "d"}),
     ("cat", "length", {"quantity_type": "time", "override": True}),
+    ("cat", "c3", {"quantity_type": "time"}), ("cat", "c3", {"quantity_type": "time", "default_unit": "s"}), ("cat", "length", {"quantity_type": "time"}),
 ]
 POSC_STEPS = [
     ("cat", "c1", {"quantity_type": "volume flow rate", "default_unit": "1000ft3/d"}), ("cat", "c1", {"quantity_type": "volume flow rate", "valid_units": ["M(ft3)/d", "m3/s"]}),
